@@ -42,6 +42,7 @@ type FuncSpec struct {
 	Unroll   map[int]int
 	LoopMod  map[int][]string
 	Inline   bool
+	Budget        int  // seconds: solver budget for the retry of this function's obligations (heavy bit-vector proofs)
 	MapOrder      bool // static obligation: no result depends on map iteration order (every map range only collects into a slice that is sorted before any other use)
 	Deterministic bool // static obligation: no map range, select, go, time/rand/env calls, no reads of package variables
 	Panics   bool // generate panic obligations
@@ -339,6 +340,8 @@ func (db *SpecDB) parseClause(fs *FuncSpec, word, rest string, line int) error {
 				fs.Modifies = append(fs.Modifies, m)
 			}
 		}
+	case "budget":
+		fmt.Sscanf(strings.TrimSpace(rest), "%d", &fs.Budget)
 	case "preserves":
 		for _, m := range strings.Split(rest, ",") {
 			m = strings.TrimSpace(m)
